@@ -76,6 +76,9 @@ def isRevS (m : Nat) : Ev → Bool
 def isRevE (m : Nat) : Ev → Bool
   | .revE m' => m' == m
   | _ => false
+def isSubT (m : Nat) : Ev → Bool
+  | .subT m' _ => m' == m
+  | _ => false
 def isLeave (m : Nat) : Ev → Bool
   | .leaveR m' => m' == m
   | _ => false
